@@ -1,7 +1,474 @@
-//! C18 — not implemented yet (see DESIGN.md section 4).
-use kit::Run;
-use serde_json::Value;
+//! C18 — JUMBF manifest stores round-trip canonically.
+//!
+//! S-inp.  Stores are produced by signing kit assets with a small generator of manifest definitions (plain on every kit
+//! format, compressed, rich assertion set with thumbnail resource and repeated labels, claim v1, parent + component
+//! ingredients, redaction of an ingredient assertion, update manifest, compressed with ingredients, sidecar) and taken out
+//! of the signed asset with `jumbf_io::load_jumbf_from_memory`.
+//!   (a) produced stores:  store_to_jumbf(store_from_jumbf(b)) == b, byte for byte;
+//!   (b) EVERY single-byte mutant m of the mutation seeds (every offset x {^0x01, ^0x80, +1, 0x00, 0xFF} quick / x all 255
+//!       other values thorough, capped per seed as stated in the evidence): if the parser accepts m, then with
+//!       c = to(from(m)):  from(c) is accepted and to(from(c)) == c.
+//! Independent part: a 60-line JUMBF box walker that names the box a mutated offset lies in (violation keys, coverage per box).
+//!
+//! Mutants caught (tools/mutant_run.sh C <diff> C18 quick):
+//!   /verif/mutants/C18-compressed-flag-lost.diff (from_jumbf no longer carries the "compressed" flag into the claim: brob stores re-serialise uncompressed)
+//!   /verif/mutants/C18-update-flag-lost.diff     (from_jumbf no longer marks update manifests: c2um boxes re-serialise as c2ma)
 
-pub fn run(_run: &Run, _replay: Option<&Value>) {
-    kit::ev::machinery("C18: check not implemented");
+use c2pa::{
+    verif_hooks::{store_from_jumbf, store_to_jumbf},
+    Builder, BuilderIntent, Context,
+};
+use kit::{assets, ev, par, sdk, Run};
+use serde_json::{json, Value};
+use std::{
+    collections::BTreeMap,
+    io::Cursor,
+    sync::{
+        atomic::{AtomicU64, Ordering},
+        Mutex,
+    },
+};
+
+struct Seed {
+    name: String,
+    store: Vec<u8>,
+    mutate: bool,
+}
+
+const GEN: &str = r#""claim_generator_info":[{"name":"verif-c18","version":"1.0"}]"#;
+
+/// Seeds are signed without the SDK's own verify-after-sign pass: the round trip is what THIS check judges.
+const NO_VERIFY: &str = r#"{"verify":{"verify_after_sign":false}}"#;
+fn sctx(extra: &[&str]) -> Context {
+    let mut v = vec![NO_VERIFY];
+    v.extend_from_slice(extra);
+    sdk::ctx_with(&v)
+}
+
+fn signer() -> Box<dyn c2pa::Signer + Send + Sync> {
+    sdk::fixture_signer("ed25519")
+}
+
+fn extract(mime: &str, signed: &[u8], what: &str) -> Vec<u8> {
+    c2pa::jumbf_io::load_jumbf_from_memory(mime, signed).unwrap_or_else(|e| ev::machinery(format!("C18 seed {what}: cannot take the store out of the signed asset: {e:?}")))
+}
+
+fn sign_def(ctx: Context, def: &str, intent: BuilderIntent, mime: &str, src: &[u8], prep: impl FnOnce(&mut Builder), what: &str) -> (Vec<u8>, Vec<u8>) {
+    let mut b = Builder::from_context(ctx).with_definition(def).unwrap_or_else(|e| ev::machinery(format!("C18 seed {what}: definition rejected: {e:?}")));
+    b.set_intent(intent);
+    prep(&mut b);
+    let mut dst = Cursor::new(Vec::new());
+    let manifest = b
+        .sign(signer().as_ref(), mime, &mut Cursor::new(src), &mut dst)
+        .unwrap_or_else(|e| ev::machinery(format!("C18 seed {what}: signing failed: {e:?}")));
+    (dst.into_inner(), manifest)
+}
+
+fn create() -> BuilderIntent {
+    BuilderIntent::Create(c2pa::DigitalSourceType::DigitalCapture)
+}
+
+fn seeds(thorough: bool) -> Vec<Seed> {
+    let mut v: Vec<Seed> = vec![];
+    let jpeg = assets::by_name("jpeg");
+    let png = assets::by_name("png");
+    let compress = r#"{"core":{"prefer_compress_manifests":true}}"#;
+    let plain_def = format!(r#"{{"title":"plain",{GEN}}}"#);
+
+    // plain, every kit format
+    for a in assets::base() {
+        let (signed, _) = sign_def(sctx(&[]), &plain_def, create(), a.mime, &a.data, |_| {}, &format!("plain-{}", a.name));
+        v.push(Seed { name: format!("plain-{}", a.name), store: extract(a.mime, &signed, a.name), mutate: a.name == "jpeg" || (thorough && (a.name == "mp4" || a.name == "png")) });
+    }
+    // compressed
+    {
+        let (signed, _) = sign_def(sctx(&[compress]), &plain_def, create(), jpeg.mime, &jpeg.data, |_| {}, "compressed-jpeg");
+        v.push(Seed { name: "compressed-jpeg".into(), store: extract(jpeg.mime, &signed, "compressed-jpeg"), mutate: true });
+    }
+    // rich assertion set
+    let rich_def = format!(
+        r#"{{"title":"rich",{GEN},"thumbnail":{{"format":"image/jpeg","identifier":"thumb.jpg"}},
+        "assertions":[
+          {{"label":"c2pa.actions.v2","data":{{"actions":[{{"action":"c2pa.created","digitalSourceType":"http://cv.iptc.org/newscodes/digitalsourcetype/digitalCapture"}},{{"action":"c2pa.edited","parameters":{{"description":"x"}}}}]}}}},
+          {{"label":"com.example.note","data":{{"text":"first"}}}},
+          {{"label":"com.example.note","data":{{"text":"second"}}}},
+          {{"label":"com.example.cbor","kind":"Cbor","data":{{"n":1,"list":[1,2,3]}}}},
+          {{"label":"stds.schema-org.CreativeWork","kind":"Json","data":{{"@context":"https://schema.org","@type":"CreativeWork","author":[{{"@type":"Person","name":"A"}}]}}}}
+        ]}}"#
+    );
+    let rich_signed = {
+        let (signed, _) = sign_def(sctx(&[]), &rich_def, create(), jpeg.mime, &jpeg.data, |b| {
+            b.add_resource("thumb.jpg", Cursor::new(jpeg.data.clone())).unwrap_or_else(|e| ev::machinery(format!("C18 seed rich: add_resource: {e:?}")));
+        }, "rich-jpeg");
+        v.push(Seed { name: "rich-jpeg".into(), store: extract(jpeg.mime, &signed, "rich-jpeg"), mutate: true });
+        signed
+    };
+    // claim v1
+    {
+        let def = format!(r#"{{"title":"v1","claim_version":1,"claim_generator":"verif-c18/1.0",{GEN},"assertions":[{{"label":"com.example.note","data":{{"text":"v1"}}}}]}}"#);
+        let mut b = Builder::from_context(sctx(&[])).with_definition(def.as_str()).unwrap_or_else(|e| ev::machinery(format!("C18 seed v1: {e:?}")));
+        let mut dst = Cursor::new(Vec::new());
+        match b.sign(signer().as_ref(), jpeg.mime, &mut Cursor::new(&jpeg.data), &mut dst) {
+            Ok(_) => v.push(Seed { name: "claim-v1-jpeg".into(), store: extract(jpeg.mime, dst.get_ref(), "claim-v1"), mutate: thorough }),
+            Err(e) => ev::machinery(format!("C18 seed claim-v1: signing failed: {e:?}")),
+        }
+    }
+    // parent (the rich asset) + component ingredient (a signed png)
+    let png_signed = sdk::sign_simple(signer().as_ref(), png.mime, &png.data, &[NO_VERIFY]);
+    let ingredient_def = format!(r#"{{"title":"with-ingredients",{GEN}}}"#);
+    let add_component = |b: &mut Builder| {
+        b.add_ingredient_from_stream(r#"{"title":"component","relationship":"componentOf"}"#, "image/png", &mut Cursor::new(&png_signed))
+            .map(|_| ())
+            .unwrap_or_else(|e| ev::machinery(format!("C18 seed ingredients: add_ingredient_from_stream: {e:?}")));
+    };
+    {
+        let (signed, _) = sign_def(sctx(&[]), &ingredient_def, BuilderIntent::Edit, jpeg.mime, &rich_signed, add_component, "ingredients-jpeg");
+        v.push(Seed { name: "ingredients-jpeg".into(), store: extract(jpeg.mime, &signed, "ingredients"), mutate: true });
+        let (signed, _) = sign_def(sctx(&[compress]), &ingredient_def, BuilderIntent::Edit, jpeg.mime, &rich_signed, add_component, "compressed-ingredients-jpeg");
+        v.push(Seed { name: "compressed-ingredients-jpeg".into(), store: extract(jpeg.mime, &signed, "compressed-ingredients"), mutate: thorough });
+    }
+    // redaction of an assertion of the parent
+    {
+        let parent = sdk::read(sdk::ctx(), jpeg.mime, &rich_signed).unwrap_or_else(|e| ev::machinery(format!("C18 seed redaction: cannot read the parent: {e:?}")));
+        let label = parent.active_label().unwrap_or_else(|| ev::machinery("C18 seed redaction: parent has no active manifest")).to_string();
+        let uri = c2pa::verif_hooks::label::to_assertion_uri(&label, "stds.schema-org.CreativeWork");
+        let def = format!(
+            r#"{{"title":"redacting",{GEN},"redactions":["{uri}"],"assertions":[{{"label":"c2pa.actions.v2","data":{{"actions":[{{"action":"c2pa.redacted","reason":"c2pa.PII.present","parameters":{{"redacted":"{uri}"}}}}]}}}}]}}"#
+        );
+        let (signed, _) = sign_def(sctx(&[]), &def, BuilderIntent::Edit, jpeg.mime, &rich_signed, |_| {}, "redaction-jpeg");
+        let store = extract(jpeg.mime, &signed, "redaction");
+        // the redaction must really be in the store
+        let rd = sdk::read(sdk::ctx(), jpeg.mime, &signed).unwrap_or_else(|e| ev::machinery(format!("C18 seed redaction: cannot read back: {e:?}")));
+        let still = rd.get_manifest(&label).map(|m| m.assertions().iter().any(|a| a.label() == "stds.schema-org.CreativeWork")).unwrap_or(true);
+        if still {
+            ev::machinery("C18 seed redaction: the assertion is still present in the parent manifest");
+        }
+        v.push(Seed { name: "redaction-jpeg".into(), store, mutate: true });
+    }
+    // update manifest on top of the rich asset
+    {
+        let def = format!(r#"{{"title":"update",{GEN}}}"#);
+        let (signed, _) = sign_def(sctx(&[]), &def, BuilderIntent::Update, jpeg.mime, &rich_signed, |_| {}, "update-jpeg");
+        v.push(Seed { name: "update-jpeg".into(), store: extract(jpeg.mime, &signed, "update"), mutate: true });
+    }
+    // sidecar
+    {
+        let (_, manifest) = sign_def(sctx(&[]), &plain_def, create(), png.mime, &png.data, |b| { b.set_no_embed(true); }, "sidecar-png");
+        v.push(Seed { name: "sidecar-png".into(), store: manifest, mutate: false });
+    }
+    v
+}
+
+// ---- independent JUMBF walker -----------------------------------------------------------------------
+
+#[derive(Clone, Debug)]
+struct Region {
+    start: usize,
+    end: usize,
+    what: String,
+}
+
+/// Flat list of leaf regions (box headers, description boxes, content payloads) with a path of JUMBF labels.
+fn walk(data: &[u8], base: usize, end: usize, path: &str, out: &mut Vec<Region>, depth: usize) {
+    let mut p = base;
+    while p + 8 <= end && depth < 12 {
+        let size = u32::from_be_bytes([data[p], data[p + 1], data[p + 2], data[p + 3]]) as usize;
+        let typ = String::from_utf8_lossy(&data[p + 4..p + 8]).to_string();
+        let size = if size == 0 { end - p } else { size };
+        if size < 8 || p + size > end {
+            out.push(Region { start: p, end, what: format!("{path}/?unparsed") });
+            return;
+        }
+        out.push(Region { start: p, end: p + 8, what: format!("{path}/{typ}:header") });
+        if typ == "jumb" {
+            // label from the description box, if it is where it should be
+            let mut label = String::from("?");
+            let d = p + 8;
+            if d + 8 + 17 <= p + size && &data[d + 4..d + 8] == b"jumd" {
+                let dsize = u32::from_be_bytes([data[d], data[d + 1], data[d + 2], data[d + 3]]) as usize;
+                let toggles = data[d + 8 + 16];
+                if toggles & 0x02 != 0 && dsize >= 8 + 17 && d + dsize <= p + size {
+                    let l = &data[d + 8 + 17..d + dsize];
+                    let n = l.iter().position(|b| *b == 0).unwrap_or(l.len());
+                    label = String::from_utf8_lossy(&l[..n]).to_string();
+                }
+            }
+            // manifest labels and instance ids are random: keep their shape only
+            let label = if label.starts_with("urn:c2pa:") || label.starts_with("urn:uuid:") || label.contains(":urn:uuid:") { "<manifest>".to_string() } else { label };
+            walk(data, p + 8, p + size, &format!("{path}/{label}"), out, depth + 1);
+        } else {
+            out.push(Region { start: p + 8, end: p + size, what: format!("{path}/{typ}:payload") });
+        }
+        p += size;
+    }
+    if p < end {
+        out.push(Region { start: p, end, what: format!("{path}/?trailing") });
+    }
+}
+
+fn region_of(regions: &[Region], pos: usize) -> String {
+    regions.iter().find(|r| r.start <= pos && pos < r.end).map(|r| r.what.clone()).unwrap_or_else(|| "?outside".into())
+}
+
+// ---- the round trips ----------------------------------------------------------------------------------
+
+fn from(ctx: &Context, b: &[u8]) -> Result<Result<c2pa::verif_hooks::Store, String>, String> {
+    par::guard(|| store_from_jumbf(b, ctx).map_err(|e| sdk::err_kind(&e)))
+}
+
+fn to(s: &c2pa::verif_hooks::Store) -> Result<Result<Vec<u8>, String>, String> {
+    par::guard(|| store_to_jumbf(s).map_err(|e| sdk::err_kind(&e)))
+}
+
+fn first_diff(a: &[u8], b: &[u8]) -> usize {
+    a.iter().zip(b.iter()).position(|(x, y)| x != y).unwrap_or(a.len().min(b.len()))
+}
+
+#[derive(Default)]
+struct Tally {
+    rejected: AtomicU64,
+    identical: AtomicU64,
+    normalised: AtomicU64,
+}
+
+/// Judge one byte string the parser may accept. Returns the outcome class.
+fn judge_mutant(run: &Run, ctx: &Context, seed: &str, region: &str, m: &[u8], case: &dyn Fn() -> Value, verbose: bool) -> &'static str {
+    let s1 = match from(ctx, m) {
+        Err(p) => {
+            run.violation(format!("panic parse at={region} seed={seed}"), format!("store_from_jumbf panicked: {p}"), case());
+            return "panic";
+        }
+        Ok(Err(e)) => {
+            if verbose {
+                println!("  parser rejects the bytes: {e}");
+            }
+            return "rejected";
+        }
+        Ok(Ok(s)) => s,
+    };
+    let c = match to(&s1) {
+        Err(p) => {
+            run.violation(format!("panic serialise at={region} seed={seed}"), format!("store_to_jumbf panicked on an accepted store: {p}"), case());
+            return "panic";
+        }
+        Ok(Err(e)) => {
+            run.violation(format!("accepted-not-serialisable at={region} err={e} seed={seed}"), format!("the parser accepts the bytes but the parsed store cannot be serialised: {e}"), case());
+            return "not-serialisable";
+        }
+        Ok(Ok(c)) => c,
+    };
+    // from/to are deterministic functions of the bytes (probed at start-up), so when to(from(m)) == m the second pass would
+    // recompute exactly the same thing: the fixed point is the identity. Every 16th such case is run in full anyway.
+    if c == m && !verbose && (m.iter().fold(0u32, |a, b| a.wrapping_mul(31).wrapping_add(*b as u32)) % 16 != 0) {
+        return "accepted-identical";
+    }
+    let s2 = match from(ctx, &c) {
+        Err(p) => {
+            run.violation(format!("panic reparse at={region} seed={seed}"), format!("store_from_jumbf panicked on re-serialised bytes: {p}"), case());
+            return "panic";
+        }
+        Ok(Err(e)) => {
+            run.violation(format!("reserialised-rejected at={region} err={e} seed={seed}"), format!("to(from(m)) is not accepted by the parser: {e}"), case());
+            return "reserialised-rejected";
+        }
+        Ok(Ok(s)) => s,
+    };
+    let c2 = match to(&s2) {
+        Ok(Ok(c2)) => c2,
+        other => {
+            run.violation(format!("reserialise-twice-fails at={region} seed={seed}"), format!("second serialisation fails: {:?}", other.map(|r| r.map(|b| b.len()))), case());
+            return "not-serialisable";
+        }
+    };
+    if verbose {
+        println!("  accepted; |m|={} |to(from(m))|={} (first difference to m at {}), |to(from(to(from(m))))|={}", m.len(), c.len(), first_diff(m, &c), c2.len());
+    }
+    if c2 != c {
+        run.violation(
+            format!("fixed-point-differs at={region} seed={seed}"),
+            format!("to(from(m)) has {} bytes, serialising its parse again gives {} bytes; first difference at offset {}", c.len(), c2.len(), first_diff(&c, &c2)),
+            case(),
+        );
+        return "not-fixed-point";
+    }
+    if c == m {
+        "accepted-identical"
+    } else {
+        "accepted-normalised"
+    }
+}
+
+pub fn run(run: &Run, replay: Option<&Value>) {
+    run.rule(
+        "produced stores must re-serialise to identical bytes; every single-byte mutant (offset x value set) of the mutation seeds that the parser accepts must reach a fixed point after one \
+         re-serialisation. non-trivial = accepted mutants whose re-serialisation differs from the mutant itself (the parser normalised something, so the fixed point is not the identity); \
+         distinct by construction (seed, offset, value).",
+    );
+    run.assume("stores are parsed with the default-size decompression limit and a Context with thumbnails/network off; signer = repository ed25519 test credential");
+    run.assume("hostile bytes are parsed in-process under catch_unwind; an abort/stack overflow would end the run as a machinery failure (C10 covers crash-freedom itself)");
+    let ctx = sdk::ctx();
+
+    if let Some(c) = replay {
+        let bytes = ev::unhex(c["store_hex"].as_str().unwrap_or(""));
+        let seed = c["seed"].as_str().unwrap_or("?");
+        println!("replay seed={seed} kind={} bytes={}", c["kind"], bytes.len());
+        run.eval();
+        if c["kind"] == "produced" {
+            check_produced(run, &ctx, seed, &bytes, true);
+        } else {
+            let cc = c.clone();
+            judge_mutant(run, &ctx, seed, c["region"].as_str().unwrap_or("?"), &bytes, &move || cc.clone(), true);
+        }
+        return;
+    }
+
+    let seeds = seeds(run.tier.is_thorough());
+    // own nondeterminism: parse+serialise the same bytes twice
+    {
+        let a = from(&ctx, &seeds[0].store).ok().and_then(|r| r.ok()).and_then(|s| to(&s).ok()).and_then(|r| r.ok());
+        let b = from(&ctx, &seeds[0].store).ok().and_then(|r| r.ok()).and_then(|s| to(&s).ok()).and_then(|r| r.ok());
+        if a.is_none() || a != b {
+            ev::machinery("C18: parse/serialise of the first seed is not deterministic or fails outright");
+        }
+    }
+
+    if std::env::var("VERIF_DEBUG").is_ok() {
+        for s in &seeds {
+            let t0 = std::time::Instant::now();
+            let mut st = None;
+            for _ in 0..20 { st = from(&ctx, &s.store).ok().and_then(|r| r.ok()); }
+            let t1 = t0.elapsed();
+            let t0 = std::time::Instant::now();
+            for _ in 0..20 { let _ = to(st.as_ref().unwrap()); }
+            eprintln!("{}: {} bytes, from {:?}/20, to {:?}/20", s.name, s.store.len(), t1, t0.elapsed());
+        }
+    }
+    // ---- (a) produced stores ---------------------------------------------------------------------
+    run.space("produced stores (definition generator x formats)", seeds.len() as u64, true);
+    for s in &seeds {
+        run.eval();
+        let ok = check_produced(run, &ctx, &s.name, &s.store, false);
+        run.outcome(if ok { "produced: identical" } else { "produced: differs" });
+        // the seed must contain what its name says
+        let mut regions = vec![];
+        walk(&s.store, 0, s.store.len(), "", &mut regions, 0);
+        let manifests = regions.iter().filter(|r| r.what.ends_with("/<manifest>/jumb:header") || r.what.ends_with("/<manifest>/brob:header")).count();
+        let compressed = regions.iter().any(|r| r.what.contains("brob"));
+        if s.name.contains("compressed") != compressed {
+            ev::machinery(format!("C18 seed {}: compressed={compressed}", s.name));
+        }
+        run.sample(json!({"seed": s.name, "store_bytes": s.store.len(), "boxes": regions.len(), "compressed": compressed, "manifest_level_boxes": manifests, "mutated": s.mutate}));
+    }
+
+    // ---- (b) single-byte mutants -----------------------------------------------------------------
+    for s in seeds.iter().filter(|s| s.mutate) {
+        let mut regions = vec![];
+        walk(&s.store, 0, s.store.len(), "", &mut regions, 0);
+        let n = s.store.len();
+        let compressed = s.name.contains("compressed");
+        // values per offset: brotli re-compression costs ~30-60 ms per accepted mutant, so compressed seeds get fewer values
+        let per_pos: usize = match (run.tier.is_thorough(), compressed, n > 5000) {
+            (false, true, _) => 1,
+            (false, false, _) => (60_000 / n).clamp(5, 255),
+            (true, false, false) => 255,
+            (true, false, true) => 64,
+            (true, true, false) => 16,
+            (true, true, true) => 2,
+        };
+        // priority order: low bit, high bit, +1, 0x00, 0xFF, then the remaining xor masks
+        let values = |b: u8| -> Vec<u8> {
+            let mut v: Vec<u8> = vec![];
+            let mut push = |x: u8| {
+                if x != b && !v.contains(&x) {
+                    v.push(x);
+                }
+            };
+            for x in [b ^ 0x01, b ^ 0x80, b.wrapping_add(1), 0x00, 0xFF] {
+                push(x);
+            }
+            for k in 2..=255u8 {
+                push(b ^ k);
+            }
+            v.truncate(per_pos);
+            v
+        };
+        let exhaustive_values = per_pos >= 255;
+        let total: u64 = (0..n).map(|p| values(s.store[p]).len() as u64).sum();
+        run.space(&format!("single-byte mutants of {} ({} bytes x {} values per offset{})", s.name, n, per_pos, if exhaustive_values { " = all" } else { "" }), total, true);
+        let per_region: Mutex<BTreeMap<String, [u64; 3]>> = Mutex::new(BTreeMap::new());
+        let tally = Tally::default();
+        par::for_each_index(n as u64, |p| {
+            let p = p as usize;
+            let region = region_of(&regions, p);
+            let mut m = s.store.clone();
+            let mut local = [0u64; 3];
+            for v in values(s.store[p]) {
+                m[p] = v;
+                let mm = &m;
+                let name = &s.name;
+                let reg = &region;
+                let case = move || json!({"kind": "mutant", "seed": name, "offset": p, "value": v, "region": reg, "store_hex": ev::hex(mm)});
+                let class = judge_mutant(run, &ctx, &s.name, &region, &m, &case, false);
+                match class {
+                    "rejected" => local[0] += 1,
+                    "accepted-identical" => local[1] += 1,
+                    "accepted-normalised" => local[2] += 1,
+                    _ => {}
+                }
+                if class != "rejected" && class != "accepted-identical" && class != "accepted-normalised" {
+                    run.outcome(format!("mutant: {class}"));
+                }
+            }
+            m[p] = s.store[p];
+            tally.rejected.fetch_add(local[0], Ordering::Relaxed);
+            tally.identical.fetch_add(local[1], Ordering::Relaxed);
+            tally.normalised.fetch_add(local[2], Ordering::Relaxed);
+            let mut g = per_region.lock().unwrap();
+            let e = g.entry(region).or_insert([0; 3]);
+            for i in 0..3 {
+                e[i] += local[i];
+            }
+        });
+        run.evals(total);
+        run.nontrivial_n(tally.normalised.load(Ordering::Relaxed));
+        run.outcome_n("mutant: rejected by the parser", tally.rejected.load(Ordering::Relaxed));
+        run.outcome_n("mutant: accepted, re-serialises to itself", tally.identical.load(Ordering::Relaxed));
+        run.outcome_n("mutant: accepted, normalised, fixed point reached", tally.normalised.load(Ordering::Relaxed));
+        let g = per_region.lock().unwrap();
+        let normalising: Vec<Value> = g.iter().filter(|(_, c)| c[2] > 0).map(|(k, c)| json!({"box": k, "rejected": c[0], "identical": c[1], "normalised": c[2]})).collect();
+        run.extra(&format!("regions_with_normalised_mutants:{}", s.name), json!(normalising));
+    }
+}
+
+fn check_produced(run: &Run, ctx: &Context, name: &str, b: &[u8], verbose: bool) -> bool {
+    let case = || json!({"kind": "produced", "seed": name, "store_hex": ev::hex(b)});
+    let s = match from(ctx, b) {
+        Ok(Ok(s)) => s,
+        other => {
+            run.violation(format!("produced-store not parseable seed={name}"), format!("store_from_jumbf on a store the SDK produced: {:?}", other.map(|r| r.map(|_| ()))), case());
+            return false;
+        }
+    };
+    let c = match to(&s) {
+        Ok(Ok(c)) => c,
+        other => {
+            run.violation(format!("produced-store not serialisable seed={name}"), format!("store_to_jumbf: {:?}", other.map(|r| r.map(|b| b.len()))), case());
+            return false;
+        }
+    };
+    if verbose {
+        println!("  produced store {} bytes, re-serialised {} bytes, first difference at {}", b.len(), c.len(), first_diff(b, &c));
+    }
+    if c != b {
+        let mut regions = vec![];
+        walk(b, 0, b.len(), "", &mut regions, 0);
+        let d = first_diff(b, &c);
+        run.violation(
+            format!("produced-store roundtrip differs seed={name} at={}", region_of(&regions, d)),
+            format!("store of {} bytes re-serialises to {} bytes; first difference at offset {d}", b.len(), c.len()),
+            case(),
+        );
+        return false;
+    }
+    true
 }
